@@ -14,107 +14,8 @@ from . import coqlit as L
 from . import execlib as X
 from .core import Prop, rp_import, COQ, VERIF, run, Scratch
 
-FAULT_C = {'none': 'FNone', 'nolauncher': 'FNoLauncher', 'script': 'FScript', 'spawn': 'FSpawn',
-           'afterspawn': 'FAfterSpawn'}
-STATE_C = {'AGENT_EXECUTING': 'SExecuting', 'CANCELED': 'SCanceled', 'FAILED': 'SFailed',
-           'AGENT_STAGING_OUTPUT_PENDING': 'SStaging'}
-TGT_C = {None: 'TgNone', 'DONE': 'TgDone', 'FAILED': 'TgFailed', 'CANCELED': 'TgCanceled'}
-TH_C = {'I': 'ThI', 'C': 'ThC', 'W': 'ThW', 'T': 'ThT', 'X': 'ThX'}
-CH_C = {'I': 'CI', 'C': 'CC', 'W': 'CW', 'T': 'CT'}
-
-
-# ------------------------------------------------------------------ literals
-def lit_scenario(case):
-    bs = L.lst([L.lst(['(mkTd %s %s %s)' % (L.Z(t['uid']), FAULT_C[t.get('fault', 'none')],
-                                            L.boolean(t.get('timeout', False))) for t in b])
-                for b in case['batches']])
-    cs = L.lst([L.zlist(m) for m in case.get('cancels', [])])
-    return '(mkSc %s %s)' % (bs, cs)
-
-
-def lit_choice(ch):
-    if isinstance(ch, list):
-        return '(CX %s %s)' % (L.Z(ch[1]), L.Z(ch[2]))
-    return CH_C[ch]
-
-
-def lit_sched(s):
-    return L.lst([lit_choice(c) for c in s])
-
-
-def lit_emission(e):
-    if e[0] == 'A':
-        items = L.lst(['(%s, %s, %s)' % (L.Z(u), L.opt(L.Z(c)) if isinstance(c, int) else 'None',
-                                         TGT_C.get(t, 'TgNone')) for u, c, t in e[2]])
-        return '(EAdv %s %s %s)' % (STATE_C.get(e[1], 'SOther'), items, L.boolean(e[3]))
-    if e[0] == 'U':
-        return '(EUns %s)' % L.zlist(e[1])
-    return 'EPub'
-
-
-def lit_obs(steps):
-    return L.lst(['(%s, %s, %s)' % (TH_C[t], L.lst(['(%s, %s, %s)' % (L.Z(k), L.Z(u), L.Z(a)) for k, u, a in es]),
-                                    L.lst([lit_emission(m) for m in ms])) for t, es, ms in steps])
-
-
-def lit_pstate(st, rc):
-    return {'none': 'PNone', 'running': 'PRunning', 'killed': 'PKilled'}.get(st) or '(PExited %s)' % L.Z(rc)
-
-
-def delivered(case):
-    return [t['uid'] for b in case['batches'] for t in b]
-
-
-def lit_final(case, fin):
-    dl = delivered(case)
-    w = {u: (st, rc) for u, st, rc in fin['world']}
-    return '(%s, %s, %s, %s)' % (
-        L.zlist([u for u in dl if u in fin['tasks']]), L.zlist([u for u in dl if u in fin['procattr']]),
-        L.zlist(fin['clist']),
-        L.lst(['(%s, %s)' % (L.Z(u), lit_pstate(*w.get(u, ('none', None)))) for u in dl]))
-
-
-# ------------------------------------------------------------------ generators
-def gen_scenario(rng, ntasks=None):
-    n = ntasks or rng.choice([1, 1, 2, 2, 2, 3])
-    uids = list(range(1, n + 1))
-    tds = []
-    for u in uids:
-        f = 'none' if rng.random() < 0.7 else rng.choice(X.FAULTS[1:])
-        tds.append({'uid': u, 'fault': f, 'timeout': rng.random() < 0.3})
-    # one or two batches
-    if n > 1 and rng.random() < 0.4:
-        k = rng.randint(1, n - 1)
-        batches = [tds[:k], tds[k:]]
-    else:
-        batches = [tds]
-    cancels = []
-    r = rng.random()
-    if r < 0.75:
-        for _ in range(1 if rng.random() < 0.8 else 2):
-            m = [u for u in uids if rng.random() < 0.6] or [rng.choice(uids)]
-            if rng.random() < 0.08:
-                m.append(9)                      # a uid the executor never sees
-            cancels.append(m)
-    exits = {str(u): rng.choice([0, 0, 1, 3]) for u in uids}
-    return {'batches': batches, 'cancels': cancels, 'exit_codes': exits}
-
-
-def gen_sched(rng, sc, length=None):
-    uids = delivered(sc)
-    length = length or rng.randint(10, 70)
-    w = [rng.choice([0.2, 1, 1, 2, 4]) for _ in range(4)]
-    px = rng.choice([0.0, 0.03, 0.08, 0.2])
-    out = []
-    for _ in range(length):
-        if rng.random() < px:
-            u = rng.choice(uids)
-            out.append(['X', u, int(sc['exit_codes'].get(str(u), 0))])
-        else:
-            out.append(rng.choices(X.THREADS, weights=w)[0])
-        if rng.random() < 0.05:
-            w = [rng.choice([0.2, 1, 1, 2, 4]) for _ in range(4)]
-    return out
+from .execlib import (lit_scenario, lit_choice, lit_sched, lit_emission, lit_obs, lit_pstate, lit_final, delivered,
+                      gen_scenario, gen_sched, coq_row_args)
 
 
 # ------------------------------------------------------------------ the check
@@ -174,34 +75,37 @@ class C07(Prop):
                 yield c
 
     def enumerated(self):
-        """all schedules of small scenarios, enumerated by the model (Exec.Enum)"""
-        scs = []
+        """schedules enumerated by the model (Exec.Enum): every transition of the state graph reachable
+        from the state after `prefix`, breadth-first, up to `cap` states"""
+        jobs = []
+        P2 = ['I'] * 10                      # the intake has launched the task: races of C/T/W/exit only
         for f in X.FAULTS:
             for to in (False, True):
-                scs.append({'batches': [[{'uid': 1, 'fault': f, 'timeout': to}]], 'cancels': [[1]],
-                            'exit_codes': {'1': 3}})
-        scs.append({'batches': [[{'uid': 1, 'fault': 'none', 'timeout': False},
-                                 {'uid': 2, 'fault': 'none', 'timeout': False}]], 'cancels': [[2]],
-                    'exit_codes': {'1': 0, '2': 1}})
-        scs.append({'batches': [[{'uid': 1, 'fault': 'afterspawn', 'timeout': False}],
-                                [{'uid': 2, 'fault': 'none', 'timeout': False}]], 'cancels': [[1, 2]],
-                    'exit_codes': {'1': 0, '2': 0}})
+                sc = {'batches': [[{'uid': 1, 'fault': f, 'timeout': to}]], 'cancels': [[1]], 'exit_codes': {'1': 3}}
+                jobs.append((sc, [], 300))
+                if f == 'none':
+                    jobs.append((sc, P2, 600))
+        sc2 = {'batches': [[{'uid': 1, 'fault': 'none', 'timeout': False}, {'uid': 2, 'fault': 'none', 'timeout': False}]],
+               'cancels': [[2]], 'exit_codes': {'1': 0, '2': 1}}
+        jobs.append((sc2, ['I'] * 14, 500))
+        sc3 = {'batches': [[{'uid': 1, 'fault': 'afterspawn', 'timeout': False}], [{'uid': 2, 'fault': 'none', 'timeout': False}]],
+               'cancels': [[1, 2]], 'exit_codes': {'1': 0, '2': 0}}
+        jobs.append((sc3, ['I'] * 4, 400))
         out = []
         with Scratch('C07-enum') as scratch:
-            for k, sc in enumerate(scs):
-                two = len(delivered(sc)) > 1
+            for k, (sc, prefix, cap) in enumerate(jobs):
                 fn = os.path.join(scratch, 'enum_%d.v' % k)
                 exits = L.lst(['(%s, %s)' % (L.Z(int(u)), L.Z(c)) for u, c in sorted(sc['exit_codes'].items())])
                 with open(fn, 'w') as f:
                     f.write('From Coq Require Import ZArith List Bool String.\nImport ListNotations.\n'
                             'From RP Require Import Exec.Model Exec.Enum.\n'
-                            'Eval vm_compute in (show_scheds (enum_scheds %s %s %s %s)).\n'
-                            % (lit_scenario(sc), exits, '2%nat' if two else '4%nat', '400%nat' if two else '4000%nat'))
+                            'Eval vm_compute in (map show_sched (enum_scheds %s %s %s 300%%nat %d%%nat)).\n'
+                            % (lit_scenario(sc), exits, lit_sched(prefix), cap))
                 rc, outp = run(['coqc', '-R', COQ, 'RP', '-w', '-all', fn], cwd=scratch, timeout=900)
-                m = re.search(r'=\s*"([^"]*)"', outp)
-                if rc != 0 or not m:
+                if rc != 0 or '= [' not in outp:
                     raise RuntimeError('schedule enumeration failed: %s' % outp[-500:])
-                for line in m.group(1).split(';'):
+                for line in re.findall(r'"([^"]*)"', outp[outp.index('= ['):]):
+                    line = line.replace('\n', '').replace(' ', '')
                     if not line:
                         continue
                     sched = []
@@ -230,9 +134,7 @@ class C07(Prop):
 
     # ------------------------------------------------------------------ coq
     def coq_row(self, case, obs):
-        return '(%s %s %s %s %s %s)' % (self.row_fn, lit_scenario(case), lit_sched(obs['sched']), lit_obs(obs['steps']),
-                                        L.boolean(obs['quiescent'] and not obs['anomalies']),
-                                        lit_final(case, obs['final']))
+        return '(%s %s)' % (self.row_fn, coq_row_args(case, obs))
 
     def model_show(self, case):
         return 'snd (run (init %s) %s)' % (lit_scenario(case), lit_sched(case['sched']))
